@@ -190,7 +190,7 @@ def write_table(df, path: Path, row_group=None, history=True):
     return path
 
 
-def build_ondisk(path: Path, df, meta, feature_columns=None, spectrum_columns=None, raw_labels=False):
+def build_ondisk(path: Path, df, meta, feature_columns=None, spectrum_columns=None, raw_labels=False, own_index=False):
     """Construct an OnDiskPsmDataset directly, exactly like tests/conftest.py does
     (independent of the PIN parser)."""
     from mokapot.dataset import OnDiskPsmDataset
@@ -218,6 +218,10 @@ def build_ondisk(path: Path, df, meta, feature_columns=None, spectrum_columns=No
     if not raw_labels:  # read_pin stores converted booleans; tests/conftest.py keeps the raw file values
         spectra_df["Label"] = (lab == 1) if lab.dtype != bool else lab
     spectra_df = spectra_df.reset_index(drop=True)
+    if own_index:
+        # rows in file order but with labels of their own (a frame assembled with concat / filtered / sorted by the caller)
+        n_ = len(spectra_df)
+        spectra_df.index = pd.Index([(7 * i + 3) % n_ if n_ % 7 else n_ - 1 - i for i in range(n_)])
     return OnDiskPsmDataset(
         filename=path,
         columns=columns,
